@@ -157,6 +157,16 @@ CLAIMED = {
                 note="Trusted: CrossHair, z3, binio models. The 1000-character long-string boundary uses concrete content (a symbolic character inside a "
                      "1000-char str costs > 300 s per path); strings > 2 symbolic characters are outside.",
                 technique=_E1),
+    "C09": dict(engine="chx+symx", category="model_checking",
+                text="Each harness copies a source object (Output, Side incl. displacements, Solid, Entity with fixups/outputs, VisGroup, EntityGroup, Keyvalues "
+                     "trees; copy(), copy.copy, deepcopy forms), checks the copy field-for-field and export-equal with ids masked (string leaves over all code "
+                     "points, times over all integers), then applies one solver-picked mutation (index into the reachable mutators: key edits, fixups, output "
+                     "fields, translate/localise, in-place Vec arithmetic on every reachable Vec, displacement vertex edits) to either side and checks the other "
+                     "side unchanged; Keyvalues +, +=, extend leave operands unchanged; collapse_one leaves the instance file untouched and is repeatable; 76 "
+                     "Vec/Angle/Matrix operators leave their operands unchanged (E2, all reals).",
+                note="Trusted: CrossHair, z3, vf/symx.py. One mutation after the copy; displacement power 3-4, float continuum, symbolic keys/ids/instance names, "
+                     "Camera/Cordon copies, pickling are outside. Mutator and side choices are symbolic indices (enumeration, stated).",
+                technique=_E1 + "; E2 (z3 Real) for the operator table"),
 }
 _TODO = "check not built yet in this round (planned: see DESIGN.md section 3)"
 NOT_APPLICABLE = {f"C{i:02d}": _TODO for i in range(1, 21) if f"C{i:02d}" not in CLAIMED}
